@@ -690,8 +690,11 @@ fn exec_c20(sc: &C20Scenario) -> Outcome {
     }
     // one segment per connection: it starts at the (uncoloured) stream header the run sends first
     let mut segs: Vec<Vec<&crate::logparse::Block>> = vec![];
-    for b in &blocks {
-        if !b.colored {
+    for (bi, b) in blocks.iter().enumerate() {
+        // a connection's stream header: the first header of the capture, an uncoloured header, or one that names
+        // several streams / "(any target)" / "(any command)"
+        let stream_header = bi == 0 || !b.colored || b.file.contains(',') || b.target.starts_with("(any ") || b.command.starts_with("(any ");
+        if stream_header {
             if !b.bytes.is_empty() {
                 out.violate("block_structure", "bytes_after_stream_header", format!("bytes follow the stream header without a block header: {:?}", String::from_utf8_lossy(&b.bytes[..b.bytes.len().min(120)])));
                 return out;
